@@ -384,6 +384,12 @@ def generator_exactness(ctx, g):
 
 
 def run(ctx):
+    _g = ctx.facts.getters()
+    _n = 0
+    for _d, _b in sorted(ctx.facts.bodies.items()):
+        if _d.startswith("fundamental_group::") and "::test" not in _d and not _b.f.get("test"):
+            _n += op_fallback_is_fixed_point(ctx, "T4-undefined-op-stays", _b, _g)
+    ctx.floor("op(k, x).unwrap_or(x) sites", _n, 2)
     g = ctx.facts.getters()
     boundary_bookkeeping(ctx, g)
     trace_word_shape(ctx, g)
